@@ -159,6 +159,76 @@ func loadBaseline(id string) map[string]bool {
 	return out
 }
 
+
+// shapeOf: what the anchoring of a function's contract depends on besides the code's
+// meaning — the number of loops (loop clauses are keyed by ordinal) and the set of
+// callees without a contract (each havocs the heap). If either changed since the
+// baseline was taken, a failed obligation of that function is first of all a contract
+// that needs re-anchoring or a callee that needs a contract: undecided, not an alarm
+// (a failed proof is a violation only when the code, not the annotation, moved).
+func shapeOf(enc *fnEnc) (loops int, uncontracted []string) {
+	loops = len(enc.loops)
+	for a := range enc.assumptions {
+		const pre = "uncontracted call havocs the heap: "
+		if strings.HasPrefix(a, pre) {
+			rest := a[len(pre):]
+			if k := strings.Index(rest, " in "); k >= 0 {
+				rest = rest[:k]
+			}
+			uncontracted = append(uncontracted, rest)
+		}
+	}
+	sort.Strings(uncontracted)
+	return
+}
+
+func loadShapes(id string) map[string]string {
+	out := map[string]string{}
+	data, err := os.ReadFile(filepath.Join(verifDir, "baseline", id+".obligations"))
+	if err != nil {
+		return out
+	}
+	for _, l := range strings.Split(string(data), "\n") {
+		if strings.HasPrefix(l, "#shape ") {
+			f := strings.SplitN(l[len("#shape "):], "\t", 2)
+			if len(f) == 2 {
+				out[f[0]] = f[1]
+			}
+		}
+	}
+	return out
+}
+
+func shapeString(loops int, unc []string) string {
+	return fmt.Sprintf("loops=%d uncontracted=%s", loops, strings.Join(unc, ","))
+}
+
+// shapeChange compares a function's shape with the baseline's; "" if compatible.
+func shapeChange(base string, loops int, unc []string) string {
+	if base == "" {
+		return ""
+	}
+	var bl int
+	var bu string
+	fmt.Sscanf(base, "loops=%d", &bl)
+	if k := strings.Index(base, "uncontracted="); k >= 0 {
+		bu = base[k+len("uncontracted="):]
+	}
+	if bl != loops {
+		return fmt.Sprintf("the function has %d loops, its contract was anchored on %d", loops, bl)
+	}
+	have := map[string]bool{}
+	for _, u := range strings.Split(bu, ",") {
+		have[u] = true
+	}
+	for _, u := range unc {
+		if !have[u] {
+			return "new callee without a contract: " + u
+		}
+	}
+	return ""
+}
+
 // runCheck runs one property check. overlay (may be nil) replaces files in memory (self-test mutants).
 var outOverride, curOutDir string
 
@@ -213,6 +283,9 @@ func runCheck(id, tier string, seed int, repo string, overlay map[string][]byte,
 	encs := map[string]*fnEnc{}
 	var fnames []string
 	skipped := map[string]bool{}
+	shapesBase := loadShapes(id)
+	shapesNow := map[string]string{}
+	shapeChanged := map[string]string{}
 	for _, f := range cfg.Functions {
 		name := fullFuncName(f)
 		fnames = append(fnames, name)
@@ -244,6 +317,13 @@ func runCheck(id, tier string, seed int, repo string, overlay map[string][]byte,
 		}
 		encs[name] = enc
 		obls = append(obls, enc.obls...)
+		{
+			l, u := shapeOf(enc)
+			shapesNow[name] = shapeString(l, u)
+			if why := shapeChange(shapesBase[name], l, u); why != "" && !updateBaseline {
+				shapeChanged[name] = why
+			}
+		}
 		for _, oc := range enc.orphanClauses {
 			undecided = append(undecided, "orphan: "+oc)
 			fmt.Fprintf(w, "UNDECIDED orphan %s\n", oc)
@@ -331,12 +411,25 @@ func runCheck(id, tier string, seed int, repo string, overlay map[string][]byte,
 				counted++
 			}
 			kf := matchKnown(known, id, o, r, outDir, timeout)
+			why, shaped := shapeChanged[o.Func]
 			switch {
 			case kf != nil:
 				rep.Verdict = "known-finding"
 				knownLines = append(knownLines, fmt.Sprintf("KNOWN-FINDING: property=%s %s %s", id, o.Name, kf.Witness))
 				if inBase || updateBaseline {
 					counted-- // not part of the proof claim
+				}
+			case inBase && shaped:
+				// the anchoring of the contract moved (see shapeOf): only a reproduced
+				// counterexample is a violation
+				path, reproduced := writeReplay(id, o, r, eng, cfg)
+				if reproduced {
+					rep.Verdict = "VIOLATION"
+					violations = append(violations, fmt.Sprintf("VIOLATION property=%s replay=%s", id, path))
+				} else {
+					rep.Verdict = "undecided-shape-changed"
+					undecided = append(undecided, fmt.Sprintf("shape changed (%s): %s", why, o.Name))
+					fmt.Fprintf(w, "UNDECIDED shape-changed %s: %s (replay=%s)\n", o.Name, why, path)
 				}
 			case inBase && r.Status == "sat":
 				path, reproduced := writeReplay(id, o, r, eng, cfg)
@@ -411,9 +504,18 @@ func runCheck(id, tier string, seed int, repo string, overlay map[string][]byte,
 			}
 		}
 		sort.Strings(names)
+		nObl := len(names)
+		var shapeNames []string
+		for f := range shapesNow {
+			shapeNames = append(shapeNames, f)
+		}
+		sort.Strings(shapeNames)
+		for _, f := range shapeNames {
+			names = append(names, "#shape "+f+"\t"+shapesNow[f])
+		}
 		os.MkdirAll(filepath.Join(verifDir, "baseline"), 0o755)
 		os.WriteFile(filepath.Join(verifDir, "baseline", id+".obligations"), []byte(strings.Join(names, "\n")+"\n"), 0o644)
-		fmt.Fprintf(w, "baseline updated: %d obligations\n", len(names))
+		fmt.Fprintf(w, "baseline updated: %d obligations\n", nObl)
 	}
 	for _, l := range knownLines {
 		fmt.Fprintln(w, l)
